@@ -113,6 +113,40 @@ func cfMid(v, a int) (string, float64) {
 	return digits[:len(digits)-1] + string(last-1) + "9", float64(b) // just below it
 }
 
+// VERIF_READER=dribble: the decoders read the file through a reader that hands out a few bytes per Read call
+// (3 first, then 1..7), as a pipe or a network connection may; the answers must not depend on it
+type dribbleReader struct {
+	data []byte
+	n    int
+}
+
+func (d *dribbleReader) Read(p []byte) (int, error) {
+	if len(d.data) == 0 {
+		return 0, io.EOF
+	}
+	k := 3
+	if d.n > 0 {
+		k = 1 + (d.n*5)%7
+	}
+	d.n++
+	if k > len(p) {
+		k = len(p)
+	}
+	if k > len(d.data) {
+		k = len(d.data)
+	}
+	copy(p, d.data[:k])
+	d.data = d.data[k:]
+	return k, nil
+}
+
+func cfReader(data []byte) io.Reader {
+	if os.Getenv("VERIF_READER") == "dribble" {
+		return &dribbleReader{data: data}
+	}
+	return bytes.NewReader(data)
+}
+
 func cfValueText(v string) string {
 	// "$i:a" anywhere in the word (CSV packs four of them with commas)
 	for {
@@ -314,11 +348,11 @@ func cfDecoders(format string) []cfDecoder {
 	case "off":
 		return []cfDecoder{
 			{"ReadOFF", func(data []byte, c *cfCase) (int, error, bool) {
-				tris, err := model3d.ReadOFF(bytes.NewReader(data))
+				tris, err := model3d.ReadOFF(cfReader(data))
 				return len(tris), err, err == nil && cfMeshMatches(c, tris, false)
 			}},
 			{"OFFReader", func(data []byte, c *cfCase) (int, error, bool) {
-				r, err := fileformats.NewOFFReader(bytes.NewReader(data))
+				r, err := fileformats.NewOFFReader(cfReader(data))
 				if err != nil {
 					return 0, err, false
 				}
@@ -340,11 +374,11 @@ func cfDecoders(format string) []cfDecoder {
 	case "stla", "stlb":
 		return []cfDecoder{
 			{"ReadSTL", func(data []byte, c *cfCase) (int, error, bool) {
-				tris, err := model3d.ReadSTL(bytes.NewReader(data))
+				tris, err := model3d.ReadSTL(cfReader(data))
 				return len(tris), err, err == nil && cfMeshMatches(c, tris, true)
 			}},
 			{"STLReader", func(data []byte, c *cfCase) (int, error, bool) {
-				r, err := fileformats.NewSTLReader(bytes.NewReader(data))
+				r, err := fileformats.NewSTLReader(cfReader(data))
 				if err != nil {
 					return 0, err, false
 				}
@@ -366,7 +400,7 @@ func cfDecoders(format string) []cfDecoder {
 	case "plya", "plyb":
 		return []cfDecoder{
 			{"ReadColorPLY", func(data []byte, c *cfCase) (int, error, bool) {
-				tris, colors, err := model3d.ReadColorPLY(bytes.NewReader(data))
+				tris, colors, err := model3d.ReadColorPLY(cfReader(data))
 				ok := err == nil && cfMeshMatches(c, tris, true)
 				if ok {
 					for v := 0; v < c.Mesh.NV; v++ {
@@ -380,7 +414,7 @@ func cfDecoders(format string) []cfDecoder {
 				return len(tris), err, ok
 			}},
 			{"PLYReader", func(data []byte, c *cfCase) (int, error, bool) {
-				r, err := fileformats.NewPLYReader(bytes.NewReader(data))
+				r, err := fileformats.NewPLYReader(cfReader(data))
 				if err != nil {
 					return 0, err, false
 				}
@@ -432,7 +466,7 @@ func cfDecoders(format string) []cfDecoder {
 				return len(segs), err, ok
 			}},
 			{"SegmentCSVReader", func(data []byte, c *cfCase) (int, error, bool) {
-				r := fileformats.NewSegmentCSVReader(bytes.NewReader(data))
+				r := fileformats.NewSegmentCSVReader(cfReader(data))
 				n := 0
 				same := true
 				for {
